@@ -23,7 +23,9 @@ import time
 
 ROOT = os.path.dirname(os.path.abspath(__file__))
 REPO = "/repo"
-GOENV = {"GOFLAGS": "-mod=mod", "GOPROXY": "off", "GOSUMDB": "off", "GOTOOLCHAIN": "local"}
+GOENV = {"GOFLAGS": "-mod=mod", "GOPROXY": "off", "GOSUMDB": "off", "GOTOOLCHAIN": "local",
+         # race-detector builds (C15): the first reported race ends the process, the heartbeat names the plan
+         "GORACE": "halt_on_error=1"}
 
 # per property: test-name regex, number of shards in the thorough tier, whether
 # the race detector build is used, wall-clock limits (seconds) per tier.
@@ -59,6 +61,7 @@ def log(*a):
 def env_for(extra=None):
     e = dict(os.environ)
     e.update(GOENV)
+    e["VERIF_ROOT"] = ROOT
     if extra:
         e.update({k: str(v) for k, v in extra.items()})
     return e
@@ -350,6 +353,11 @@ def _run_property(prop, tier, seed, conf, binary, t0):
             except Exception:
                 case = payload
             tail = logtxt[-1500:]
+            for marker in ("WARNING: DATA RACE", "fatal error:", "panic:"):
+                at = logtxt.find(marker)
+                if at >= 0:
+                    tail = logtxt[at:at + 2500]
+                    break
             v = dict(property=pr, check=chk, seed=eff_seed(seed, sh), kind="fatal", case=case,
                      note="process died with status %s during this case: %s" % (rc, tail))
             path = store_replay(prop, v)
